@@ -95,7 +95,7 @@ FLIGHT_BUDGET = 30
 SIG = 64
 TOK = 64 + SIG
 CRAFT_MUT = ["none", "drop_root", "bad_token_sig", "bad_md_sig", "wrong_pointer", "foreign_tokens", "forged_att",
-             "self_att", "md_only", "tokens_only", "remd"]
+             "self_att", "md_only", "tokens_only", "remd", "forged_tip_first"]
 ATTEST_MODES = ["own", "third", "observed", "alt_ptr", "alt_sig", "short"]
 AA_SITE = "should_sign:already_attested"
 AA_SHADOW_SITE = "should_sign:already_attested:other_authority_on_same_metadata"
@@ -676,6 +676,22 @@ class Run:
             tok_blobs = []
         elif mutation == "remd":
             md_blob = make_md(tokens[-1].get_hash()).get_plaintext_signed()
+        if mutation == "forged_tip_first":
+            # the tip of the chain is signed by ANOTHER key (correct back-pointer), the metadata - validly signed by x -
+            # points at it; the forged tip is disclosed first, alone, and the genuine tokens below it follow as an
+            # (unsolicited or solicited) missing-response. The chain never verifies.
+            other = self.nodes[(x + 1 + j % (NNODES - 1)) % NNODES].key
+            below = tok_blobs[:-1]
+            prev = sha3(below[-1]) if below else self.model.genesis[x]
+            tip = Token(prev, content_hash=tokens[-1].content_hash, private_key=other)
+            md2 = Metadata(tip.get_hash(), md.serialized_json_dict, key)
+            md2_blob = md2.get_plaintext_signed()
+            self.send_as(x, y, pl.DisclosePayload(struct.pack(">I", len(md2_blob)) + md2_blob, tip.get_plaintext_signed(),
+                                                  b"", b""))
+            self.pump()
+            if below:
+                self.send_as(x, y, pl.MissingResponsePayload(b"".join(below)))
+            return
         md_field = b"" if mutation == "tokens_only" else struct.pack(">I", len(md_blob)) + md_blob
         self.send_as(x, y, pl.DisclosePayload(md_field, b"".join(tok_blobs), atts, auths))
 
@@ -809,6 +825,9 @@ def family_e3(quick: bool):
         yield happy + [["craft", S1, A, mut, 0, [0], 0, 0, 0, own]]
         yield [["reg", A, 0, 0, S1, 0], ["reg", A, 1, 0, S2, 0], ["adv", S2, A, 1, 0, 0],
                ["craft", S2, A, mut, 0, [1, 0], 0, 0, 0, own]]
+        # side chains of two and three tokens whose TIP carries the registered hash: only the chain decides
+        yield [["reg", A, 1, 0, S2, 0], ["craft", S2, A, mut, 0, [0, 1], 0, 0, 0, 0]]
+        yield [["reg", A, 1, 0, S2, 0], ["craft", S2, A, mut, 1, [2, 0, 1], 0, 0, 0, 0]]
 
 
 def _families(quick: bool) -> list:
